@@ -273,6 +273,57 @@ pub fn isolated_call<T: Elem>(fft: &Inst<T>, entry: Entry, input: &[Complex<T>])
 }
 
 /// Parameters of a real (simulated-world) call
+/// One guard-paged call on a freshly planned transform of element type `U`, judged against the isolated call on a twin.
+/// Err((kind, detail)): kind in {"skip", "canary", "panic", "bits"}.
+#[allow(clippy::too_many_arguments)]
+fn foreign_call<U: Elem>(pk: PK, len: usize, dir: Dir, entry: Entry, k: u8, seed: u64, place: Place) -> Result<u64, (&'static str, String)> {
+    let spec = crate::world::Spec::Planned(pk, len);
+    let built = catch_unwind(|| (world::build::<U>(&spec, dir), world::build::<U>(&spec, dir)));
+    let (fft, twin) = match built {
+        Ok((Ok(a), Ok(b))) => (a, b),
+        Ok(_) => return Err(("skip", "planner unavailable".into())),
+        Err(p) => return Err(("panic", format!("planning panicked: {}", panic_msg(&p)))),
+    };
+    let total = len * k as usize;
+    let x = gen_input::<U>(&InputSpec { seed, kind: InputKind::Dense }, total);
+    let reference = isolated_call(&twin, entry, &x);
+    let adv = advertised(&fft, entry);
+    let mut inbuf = GBuf::from_slice(&x, place);
+    let mut outbuf = GBuf::<U>::new(if matches!(entry, Entry::OutOfPlace | Entry::Immut) { total } else { 0 }, other_place(place));
+    let mut scratch = GBuf::<U>::new(if entry == Entry::Process { 0 } else { adv }, place);
+    sched::set_step_allowance(Some(step_allowance(3 * total + 2 * adv)));
+    let r = catch_unwind(AssertUnwindSafe(|| match entry {
+        Entry::Process => fft.process(inbuf.as_mut()),
+        Entry::InPlace => fft.process_with_scratch(inbuf.as_mut(), scratch.as_mut()),
+        Entry::OutOfPlace => fft.process_outofplace_with_scratch(inbuf.as_mut(), outbuf.as_mut(), scratch.as_mut()),
+        Entry::Immut => fft.process_immutable_with_scratch(inbuf.as_ref(), outbuf.as_mut(), scratch.as_mut()),
+    }));
+    sched::set_step_allowance(None);
+    if !(inbuf.canary_ok() && outbuf.canary_ok() && scratch.canary_ok()) {
+        return Err(("canary", "bytes next to a caller buffer were overwritten".into()));
+    }
+    let out = match r {
+        Ok(()) => match entry {
+            Entry::Process | Entry::InPlace => inbuf.as_ref().to_vec(),
+            _ => outbuf.as_ref().to_vec(),
+        },
+        Err(pl) => {
+            if pl.downcast_ref::<SimAbort>().is_some() {
+                std::panic::resume_unwind(pl);
+            }
+            return match reference {
+                Ok(_) if len > 0 && total > 0 => Err(("panic", format!("well-shaped call panicked: {}", panic_msg(&pl)))),
+                _ => Ok(0xdead),
+            };
+        }
+    };
+    match reference {
+        Ok(r) if bits_eq(&out, &r) => Ok(elem::hash_slice(&out)),
+        Ok(r) => Err(("bits", format!("output differs from the isolated call at element {:?}", first_diff(&out, &r)))),
+        Err(m) => Err(("panic", format!("the isolated reference call panicked ({}) but the call returned", m))),
+    }
+}
+
 struct CallParams<'a, T: Elem> {
     entry: Entry,
     input: &'a [Complex<T>],
@@ -617,6 +668,7 @@ impl<T: Elem> World<T> {
                 (l, (l as i64 + *odelta).max(0) as usize, adv)
             }
             ShapeFault::OutAndScratch { delta } => (n, (n as i64 + *delta).max(0) as usize, adv.saturating_sub(1)),
+            ShapeFault::EmptyData { out_chunks, out_extra, short_scratch } => (0, *out_chunks as usize * n + *out_extra as usize, if *short_scratch { adv.saturating_sub(1) } else { adv }),
         }
     }
 
@@ -655,8 +707,11 @@ impl<T: Elem> World<T> {
             }
             (Err(m), true) => self.report(t, "c09.good-panicked", format!("{}: well-shaped call panicked: {}", what, m)),
             (Ok(_), false) => {
-                if n == 0 || x.is_empty() {
-                    // not something the property text settles; see DESIGN (C09 scope note)
+                // empty data: C09 settles two cases - "input and output lengths differ" and "scratch shorter than
+                // advertised" always panic; an empty call that is otherwise in order is not something the text settles
+                let empty_must_panic = n > 0 && x.is_empty() && (o.map_or(false, |o| o != 0) || s < adv);
+                if (n == 0 || x.is_empty()) && !empty_must_panic {
+                    // see DESIGN (C09 scope note)
                     self.count("shape.unspecified", 1);
                 } else {
                     self.report(t, "c09.bad-returned", format!("{}: ill-shaped call returned normally", what));
@@ -665,6 +720,34 @@ impl<T: Elem> World<T> {
             }
             (Err(_), false) => {
                 self.count("fault.unwind", 1);
+            }
+        }
+    }
+
+    fn exec_foreign(&self, t: &mut TCtx<T>, op: &Op) {
+        let Op::Foreign { pk, len, dir, entry, k, seed, place } = op else { unreachable!() };
+        let r = if T::NAME == "f32" { foreign_call::<f64>(*pk, *len, *dir, *entry, *k, *seed, *place) } else { foreign_call::<f32>(*pk, *len, *dir, *entry, *k, *seed, *place) };
+        self.count("op.foreign-type-call", 1);
+        match r {
+            Ok(h) => t.log.add(h),
+            Err((kind, detail)) => {
+                t.log.add(0xf0e1);
+                let what = format!("call on a {} transform ({:?} len={} {:?} {:?} k={}) between this world's {} calls: {}", if T::NAME == "f32" { "f64" } else { "f32" }, pk, len, dir, entry, k, T::NAME, detail);
+                match kind {
+                    "skip" => self.count("skipped.foreign", 1),
+                    "canary" => self.report(t, "c03.canary-overwritten", what),
+                    "panic" => {
+                        let class = format!("{}.call-panicked", self.prefix);
+                        self.report(t, &class, what)
+                    }
+                    _ => {
+                        for cls in ["c11.bits-differ", "c10.bits-differ", "c03.foreign-bits-differ"] {
+                            if crate::props::owns(&self.prefix, cls) {
+                                self.report(t, cls, what.clone());
+                            }
+                        }
+                    }
+                }
             }
         }
     }
@@ -721,9 +804,9 @@ impl<T: Elem> World<T> {
         }
         let km = (*kmax).max(2) as usize;
         let mut dls: Vec<usize> = vec![1, n.saturating_sub(1), n, n + 1, 2 * n - 1, 2 * n, 2 * n + 1, km * n - 1, km * n, km * n + 1];
+        dls.push(0);
         dls.sort();
         dls.dedup();
-        dls.retain(|&l| l > 0);
         let mut sls: Vec<usize> = vec![0, adv.saturating_sub(1), adv, adv + 1];
         sls.sort();
         sls.dedup();
@@ -1150,6 +1233,7 @@ impl<T: Elem> World<T> {
             Op::Poison { .. } => self.exec_poison(t, op),
             Op::SharedImmut { .. } => self.exec_shared_immut(t, op),
             Op::HostCheck => self.exec_hostcheck(t),
+            Op::Foreign { .. } => self.exec_foreign(t, op),
         }
         // bounded liveness: a call that passed more scheduling points than any terminating call of its size can
         let hits = sched::take_budget_hits();
@@ -1199,6 +1283,7 @@ pub fn op_name(op: &Op) -> &'static str {
         Op::ScratchGrid { .. } => "ScratchGrid",
         Op::ShapeGrid { .. } => "ShapeGrid",
         Op::Crash { .. } => "Crash",
+        Op::Foreign { .. } => "Foreign",
         Op::SplitChunk { .. } => "SplitChunk",
         Op::Poison { .. } => "Poison",
         Op::SharedImmut { .. } => "SharedImmut",
